@@ -120,6 +120,8 @@ pub fn expand_macro( mut file: File, mac: Mac  ) -> (File, Lib) {
 
                 if item_impl.attrs.iter().any(|x| use_macro.is(x)){
 
+                    // the impl block goes in once, followed by the code of each of its macros
+                    let mut first = true;
                     for attr in &item_impl.attrs.clone() {
                         if use_macro.is(attr) {
 
@@ -133,7 +135,10 @@ pub fn expand_macro( mut file: File, mac: Mac  ) -> (File, Lib) {
                             
                             // generate code
                             let (mut code_file,_) = aaa.generate_example_code(item_impl);
-                            code_file.items.insert(0,Item::Impl(item_impl.clone()) );
+                            if first {
+                                code_file.items.insert(0,Item::Impl(item_impl.clone()) );
+                                first = false;
+                            }
 
                             new_items_file.push(code_file.items);
                         }
